@@ -464,6 +464,21 @@ class Exporter
         std::string CT = canonStr(VD->getType());
         if (CT != typeStr(VD->getType())) J.attribute("ct", CT);
         if (VD->isStaticLocal()) J.attribute("static", true);
+        if (const auto* DD = dyn_cast<DecompositionDecl>(VD))
+        {
+            // structured bindings in declaration order: name and local id
+            J.attributeBegin("bindings");
+            J.arrayBegin();
+            for (const BindingDecl* B : DD->bindings())
+            {
+                J.objectBegin();
+                J.attribute("name", B->getNameAsString());
+                J.attribute("id", localId(B));
+                J.objectEnd();
+            }
+            J.arrayEnd();
+            J.attributeEnd();
+        }
         if (const ConstantArrayType* AT =
                 Ctx.getAsConstantArrayType(VD->getType()))
             J.attribute("ext", (int64_t)AT->getSize().getZExtValue());
